@@ -81,10 +81,17 @@ func SimC04(c *CheckCtx, i int, r *Rng) error {
 		gens = RealGens(names)
 		c.Env.Stats.Add("probe/real-generators-world", 1)
 	}
+	if !real && i%7 == 5 {
+		// import names that have to be disambiguated: aliases must not depend on map order or on what
+		// the process generated before
+		m, names, gens = clashWorld(r, base)
+		c.Env.Stats.Add("probe/import-name-clash-world", 1)
+	}
 	// bias: map-valued arguments exercise the dumper's key order
 	if r.P(0.6) {
 		for gi := range gens {
-			for k, rule := range gens[gi].Rules {
+			for _, k := range sortedKeys(gens[gi].Rules) {
+				rule := gens[gi].Rules[k]
 				if len(rule.Render) > 0 && r.P(0.4) {
 					rule.Render = append(rule.Render, proto.Part{Text: "\nvar Lit_" + sanitize(gens[gi].Name+"_"+k) + " = "}, proto.Part{Value: Pick(r, ValueKinds)}, proto.Part{Text: "\n"})
 					gens[gi].Rules[k] = rule
@@ -147,6 +154,15 @@ func SimC04(c *CheckCtx, i int, r *Rng) error {
 	// the n-th run of a process that has already served other runs
 	sc.Variants = append(sc.Variants, Variant{Name: "proc:warm", Ops: []Op{
 		{Kind: "warm", Run: mkRun(simrt.Schedule{Default: "desc"}, args.Entrypoint, true)},
+		{Kind: "run", Run: mkRun(asc, args.Entrypoint, false)},
+	}})
+	// ... and that has generated OTHER packages of the module before (in a scratch copy of the world)
+	allEps := make([]int, len(m.Pkgs))
+	for k := range allEps {
+		allEps[k] = k
+	}
+	sc.Variants = append(sc.Variants, Variant{Name: "proc:warm-all", Ops: []Op{
+		{Kind: "warm", Run: mkRun(asc, spell(r, m, allEps), true)},
 		{Kind: "run", Run: mkRun(asc, args.Entrypoint, false)},
 	}})
 	out, err := c.RunScenario(sc, i)
